@@ -212,7 +212,9 @@ def c09_configurator_purity(tier, seed):
     import puan.logic.plog as pg
     import puan.modules.configurator as cc
     r = _result("rt.c09_configurator_purity", "configurators over <=6 items x sequences of 4 calls out of (select with a priority, "
-                "select only_leafs, add(new rule), ge_polyhedron, default_prios, leafs, to_json, to_b64, flatten, errors); "
+                "select only_leafs, add(new rule), ge_polyhedron, default_prios, leafs, to_json, to_b64, flatten, errors, "
+                "StingyConfigurator.from_json / plog.from_json of its own record); after every call five probes on OTHER objects (plog.from_json "
+                "of an Any-with-default and a Xor record, StingyConfigurator.from_json, plog.Any, cc.Any) must answer as at process start; "
                 "structural snapshot of the receiver (memo fields excluded) before/after each call and comparison of each answer "
                 "with the same call on a freshly built copy; non-trivial = distinct (call, position in the sequence)")
     rng = random.Random(seed + 301)
@@ -248,6 +250,35 @@ def c09_configurator_purity(tier, seed):
     def shape(cfg):
         return json.dumps([cfg.to_text(), len(cfg.propositions), int(cfg.value), int(cfg.sign), str(cfg.id)])
 
+    # probes on OTHER objects: what these return at process start is what they must return after any history of calls
+    any_doc = {"type": "Any", "id": "P", "propositions": [{"id": "p"}, {"id": "q"}, {"id": "r"}], "default": ["q"]}
+    xor_doc = {"type": "Xor", "id": "Q", "propositions": [{"id": "p"}, {"id": "q"}]}
+    cfg_doc = {"id": "cfgdoc", "propositions": [any_doc, xor_doc]}
+
+    def _probe(f):
+        try:
+            return f()
+        except Exception as e:
+            return "raised " + type(e).__name__
+    probes = {
+        "plog.from_json(Any with default)": lambda: (lambda m: [type(m).__module__, type(m).__name__, m.to_text()])(pg.from_json(json.loads(json.dumps(any_doc)))),
+        "plog.from_json(Xor)": lambda: (lambda m: [type(m).__module__, type(m).__name__, m.to_text()])(pg.from_json(json.loads(json.dumps(xor_doc)))),
+        "StingyConfigurator.from_json": lambda: (lambda m: [type(m).__name__, m.to_text(), sorted((str(a), int(b)) for a, b in m.default_prios.items())])(
+            cc.StingyConfigurator.from_json(json.loads(json.dumps(cfg_doc)))),
+        "plog.Any(...)": lambda: pg.Any("p", "q", variable="Z").to_text(),
+        "cc.Any(..., default)": lambda: cc.Any("p", "q", "r", default=["r"], variable="Z").to_text(),
+    }
+    at_start = {k_: _probe(f) for k_, f in probes.items()}
+    calls = calls + ["from_json", "plog_from_json"]
+    _do = do
+
+    def do(cfg, name):
+        if name == "from_json":
+            return cc.StingyConfigurator.from_json(json.loads(json.dumps(cfg.to_json()))).to_text()
+        if name == "plog_from_json":
+            return pg.from_json(json.loads(json.dumps(cfg.to_json()))).to_text()
+        return _do(cfg, name)
+
     n = 40 if tier == "quick" else 300
     for k in range(n):
         cfg = build(k)
@@ -270,6 +301,11 @@ def c09_configurator_purity(tier, seed):
                 _viol(r, f"c09.configurator-changed-by[{name}]", w, before=before[:300], after=after[:300])
             if got != exp:
                 _viol(r, f"c09.configurator-answer-depends-on-history[{name}]", w, got=got[:300], expected=exp[:300])
+            for pname, f in probes.items():
+                now = _probe(f)
+                if now != at_start[pname]:
+                    _viol(r, f"c09.other-object-answer-depends-on-history[{pname}]", dict(w, probe=pname),
+                          at_process_start=str(at_start[pname])[:300], now=str(now)[:300])
     return _finish(r)
 
 
@@ -522,7 +558,7 @@ def c16_configurator_json(tier, seed):
     import puan.logic.plog as pg
     import puan.modules.configurator as cc
     r = _result("rt.c16_configurator_json", "configurators with defaulted/plain Any/Xor and implication rules through "
-                "json.dumps/loads: to_text, default_prios and polyhedron compared; non-trivial = distinct rule-kind multisets")
+                "json.dumps/loads (default lists of one and two entries): to_text, default lists, default_prios and polyhedron compared; non-trivial = distinct rule-kind multisets")
     rng = random.Random(seed + 51)
     n = 40 if tier == "quick" else 300
     for k in range(n):
@@ -530,13 +566,16 @@ def c16_configurator_json(tier, seed):
         kinds = []
         for j in range(rng.randint(1, 3)):
             xs = rng.sample(list("abcdefg"), rng.randint(2, 3))
-            kind = rng.choice(["any", "anyd", "xor", "xord", "imply", "atmost"])
+            kind = rng.choice(["any", "anyd", "xor", "xord", "imply", "atmost", "anydd", "xordd"])
             kinds.append(kind)
             vid = f"R{j}"
             if kind == "any": rules.append(cc.Any(*xs, variable=vid))
             elif kind == "anyd": rules.append(cc.Any(*xs, default=[xs[-1]], variable=vid))
             elif kind == "xor": rules.append(cc.Xor(*xs, variable=vid))
             elif kind == "xord": rules.append(cc.Xor(*xs, default=[xs[0]], variable=vid))
+            # default lists of two entries, in an order that need not be the sorted one (the first entry is THE default)
+            elif kind == "anydd": rules.append(cc.Any(*xs, default=sorted(xs, reverse=True)[:2], variable=vid))
+            elif kind == "xordd": rules.append(cc.Xor(*xs, default=[xs[-1], xs[0]], variable=vid))
             elif kind == "atmost": rules.append(pg.AtMost(1, xs, variable=vid))
             else: rules.append(pg.Imply(xs[0], cc.Any(*xs[1:], default=[xs[1]], variable=vid + "c") if len(xs) > 2 else xs[1], variable=vid))
         cfg = cc.StingyConfigurator(*rules, id="cfg")
@@ -555,6 +594,9 @@ def c16_configurator_json(tier, seed):
             _viol(r, "c16.configurator-structure-differs", w, got=c2.to_text(), want=cfg.to_text())
         if cfg.default_prios != c2.default_prios:
             _viol(r, "c16.configurator-default-prios-differ", w)
+        dl = lambda m: sorted((str(x.id), [str(v.id) for v in x.default]) for x in m.flatten() if hasattr(x, "default"))
+        if dl(cfg) != dl(c2):
+            _viol(r, "c16.configurator-default-lists-differ", w, got=dl(c2), want=dl(cfg))
         if cfg.ge_polyhedron.tolist() != c2.ge_polyhedron.tolist():
             _viol(r, "c16.configurator-polyhedron-differs", w)
     return _finish(r)
@@ -683,10 +725,11 @@ def c14_objectives(tier, seed):
     # independent of default_prios: a default is chosen when nothing overrides it, a prioritised item when asked for,
     # and nothing more than necessary is selected
     for kind in ("Xor", "Any"):
-        for xs in (["a", "b", "c"], ["p", "q"], ["a", "b", "c", "d"]):
+        for xs in (["a", "b", "c"], ["p", "q"], ["a", "b", "c", "d"], ["Green", "blue", "0red"]):
             for d in xs:
-                rule = (cc.Xor if kind == "Xor" else cc.Any)(*xs, default=[d], variable="R")
-                cfg0 = cc.StingyConfigurator(rule, pg.Imply("z", pg.Any(*xs[:2], variable="Q"), variable="I"), id="d-%s-%s-%s" % (kind, d, len(xs)))
+                rule = (cc.Xor if kind == "Xor" else cc.Any)(*xs, default=[d], variable="rule")
+                cfg0 = cc.StingyConfigurator(rule, pg.Imply("z", pg.Any(*xs[:2], variable="helper"), variable="imp"),
+                                             id=["d-%s-%s-%s" % (kind, d, len(xs)), "main", "A"][len(d) % 3])
                 sol = list(cfg0.select({}, solver=dummy_solver, only_leafs=True))[0]
                 chosen = sorted(k_ for k_, v in sol.items() if int(v) == 1)
                 r["evaluations"] += 1
@@ -698,6 +741,18 @@ def c14_objectives(tier, seed):
                 chosen = sorted(k_ for k_, v in sol.items() if int(v) == 1)
                 if other not in chosen or (kind == "Xor" and chosen != [other]):
                     _viol(r, "c14.prioritised-item-not-selected", {"rule": rule.to_json(), "prio": {other: 1}}, chosen=chosen)
+    # a default list of several entries: the FIRST listed entry is the default, whatever the order of the items
+    for kind in ("Xor", "Any"):
+        for xs, dl in ((["petrol", "diesel", "electric"], ["electric", "diesel"]), (["m", "a", "c"], ["c", "a"]),
+                       (["a", "b", "c", "d"], ["d", "a", "b"]), (["a", "b"], ["b", "a"])):
+            rule = (cc.Xor if kind == "Xor" else cc.Any)(*xs, default=list(dl), variable="rule")
+            cfg0 = cc.StingyConfigurator(rule, id="multi-%s" % kind)
+            sol = list(cfg0.select({}, solver=dummy_solver, only_leafs=True))[0]
+            chosen = sorted(k_ for k_, v in sol.items() if int(v) == 1)
+            r["evaluations"] += 1
+            r["_seen"].add((kind, "first-of-several-defaults", len(dl)))
+            if chosen != [dl[0]]:
+                _viol(r, "c14.default-not-chosen", {"rule": rule.to_json(), "prio": {}, "defaults": dl}, chosen=chosen, default=dl[0])
     # the non-default branch costs more than any number of plain selections: the default wins even when it drags
     # several other items in
     for m in (2, 3, 5):
@@ -712,20 +767,22 @@ def c14_objectives(tier, seed):
             if "b" not in chosen or "a" in chosen:
                 _viol(r, "c14.default-not-chosen", {"rule": rule.to_json(), "drags_in": extra, "prio": {}}, chosen=chosen, default="b")
     for k in range(n):
-        items = list("abcdef")
+        # ids of every kind of sort position: items / rules / the configurator itself may each come first in flatten()
+        items = rng.choice([list("abcdef"), ["A", "B", "c", "d", "E", "f"], ["0", "1", "2", "x", "y", "z"], list("abcdef")])
+        rid = rng.choice(["R%d", "r%d", "~%d", "R%d"])
         rules, kinds = [], []
         for j in range(rng.randint(1, 2)):
             xs = rng.sample(items, rng.randint(2, 3))
             kind = rng.choice(["anyd", "xord", "any", "xor", "atmost", "imply"])
             kinds.append(kind)
-            vid = f"R{j}"
+            vid = rid % j
             if kind == "any": rules.append(cc.Any(*xs, variable=vid))
             elif kind == "anyd": rules.append(cc.Any(*xs, default=[xs[0]], variable=vid))
             elif kind == "xor": rules.append(cc.Xor(*xs, variable=vid))
             elif kind == "xord": rules.append(cc.Xor(*xs, default=[xs[0]], variable=vid))
             elif kind == "atmost": rules.append(pg.AtMost(1, xs, variable=vid))
             else: rules.append(pg.Imply(xs[0], pg.Any(*xs[1:], variable=vid + "q"), variable=vid))
-        cfg = cc.StingyConfigurator(*rules, id="c14-%d-%d" % (seed, k))
+        cfg = cc.StingyConfigurator(*rules, id=rng.choice(["c14-%d-%d" % (seed, k), "main", "zz-top", "A-cfg", "0"]))
         if cfg.errors() != []:
             continue
         poly = cfg.ge_polyhedron
